@@ -5,6 +5,7 @@ from ..engine import Ctx
 
 
 def check_route(ctx: Ctx, rule: str, ops=("enqueue", "requeue", "reject")) -> None:
-    from .C05 import route_rules
+    from .C05 import helper_siblings, route_rules
 
     route_rules(ctx, rule, ops)
+    helper_siblings(ctx, rule)
